@@ -19,6 +19,7 @@ type Ctx struct {
 	Tier string
 
 	switches []*model.TypeSwitch
+	iroles   *IRoles
 	grammar  *model.Grammar
 	gramErr  error
 	reach    map[string]map[*ssa.Function]*ssa.Function
